@@ -514,3 +514,11 @@ Proof.
   - intros H w. rewrite U. split; [intros [X|X]; auto | auto].
   - intros H w Hw. apply H, U. auto.
 Qed.
+
+(* D6: with the union built from the unsanitized operands a start state of the smaller automaton and a
+   final state of the bigger one that share a number make the union accept the empty word *)
+Theorem congr_operands_refuted : exists A B, wincl_congr_old A B = false /\ wincl_dec A B = true.
+Proof.
+  exists {| nstarts := [0%N]; nfinals := []; edges := [] |}, {| nstarts := []; nfinals := [0%N]; edges := [] |}.
+  split; vm_compute; reflexivity.
+Qed.
